@@ -30,13 +30,14 @@ FID = "MuIgnoresEs"
 JVM_ENV = {"JAVA_TOOL_OPTIONS": "-XX:ParallelGCThreads=1 -XX:CICompilerCount=2"}
 
 DEVS = ["MuIgnoresEs", "SpreadOverAll", "AscendingSort", "NoUnsort", "StopEarly", "EsDroppedInLoop", "AbsGainFloor",
-        "SortOrderCached"]
+        "SortOrderCached", "TinyLevelUniform"]
 # model-level mutant -> the invariant that must refute it
 DEV_REFUTED_BY = {"MuIgnoresEs": "KKT", "SpreadOverAll": "SumIsP", "AscendingSort": "NonNeg",
                   "NoUnsort": "PermutationEquivariant", "StopEarly": "NonNeg", "EsDroppedInLoop": "MatchesOptimum",
-                  "AbsGainFloor": "ScaleLaws", "SortOrderCached": "MatchesOptimum"}
+                  "AbsGainFloor": "ScaleLaws", "SortOrderCached": "MatchesOptimum",
+                  "TinyLevelUniform": "LiveChannelLaw"}
 INVARIANTS = ["TypeOK", "NonNeg", "SumIsP", "KKT", "MatchesOptimum", "WaterLevelUnique", "Optimal",
-              "ExchangeOptimal", "PermutationEquivariant", "RunAgrees", "ScaleLaws", "ScaleLawsOptimum", "DeadChannelLaw", "ReplicationLaw", "ReplicationLawOptimum", "KeepsOne", "PsNonNeg", "DropSound",
+              "ExchangeOptimal", "PermutationEquivariant", "RunAgrees", "ScaleLaws", "ScaleLawsOptimum", "DeadChannelLaw", "LiveChannelLaw", "ReplicationLaw", "ReplicationLawOptimum", "KeepsOne", "PsNonNeg", "DropSound",
               "StopSound"]
 ACTIONS = ["Pick", "Sort", "Level", "DropWorst", "Spread", "Unsort", "Mu", "Reuse"]
 
@@ -54,7 +55,7 @@ def rset(pairs):
 def model(gains, first, lens, powers, noises, energies, dev=(), emit=True, invariants=None, **opt):
     o = dict(AllTieBreaks=True, DropOnTie=False, PermAll=True, Reuse=True, GridN=4, ExN=4,
              OptAMax=[(160, 1), (160, 1)], ExAMax=(160, 1), Scales={(3, 1), (1, 2)}, GainFloor=(1, 4),
-             DeadGains={(1, 4096)}, DeadCount=2, DeadMaxLen=3, Reps={2, 3}, RepMaxLen=4)
+             DeadGains={(1, 4096)}, DeadCount=2, DeadMaxLen=3, Reps={2, 3}, RepMaxLen=4, LiveGains={(4096, 1)}, LiveMaxLen=3, TinyLevel=(1, 1000))
     o.update(opt)
     optrec = tlc.tla(o)
     defs = {"Gains": rset(gains), "FirstGains": rset(first), "Lens": tlc.tla(set(lens)),
@@ -258,6 +259,30 @@ def run_case(c):
                         want[:pos] + [0.0] * len(dead) + want[pos:])
             if bad:
                 return "violation", bad, calls
+    # 7. live-channel law + scaling law at the ends of the float64 range (LiveChannelLaw): an extremely strong
+    #    channel whose level N0/(Es g) is a tiny NORMAL or a SUBNORMAL number joins and the power grows by mu: it
+    #    takes mu (minus its negligible level), everything else and the level stay as in the moderate-scale case.
+    #    All inputs and all products Es*g stay finite.
+    mid = n // 2
+    for label, k, G, pos in (("gain 1.5e308/max(1,Es) (subnormal level)", 1.0, 1.5e308 / max(1.0, es), 0),
+                             ("gains and N0 x 1e-150, gain 1e160 (subnormal level)", 1e-150, 1e160, n),
+                             ("gains and N0 x 1e-150, gain 1e150 (level ~1e-300)", 1e-150, 1e150, mid),
+                             ("gains and N0 x 1e+150, gain 1e300 (level ~1e-150)", 1e150, 1e300, n),
+                             ("gain 1e30 x max(g)", 1.0, 1e30 * float(gf.max()), mid)):
+        if not (n0 * k) / (es * G) < wmu * 1e-12:      # premise of the law (level far below the water level)
+            continue
+        calls += 1
+        arr = np.concatenate([gf[:pos] * k, [G], gf[pos:] * k])
+        w = want[:pos] + [wmu] + want[pos:]
+        lab = f"strong channel added at position {pos}, P + mu: {label}"
+        before = arr.copy()
+        try:
+            res = call(arr, P + wmu, n0 * k, es)
+        except Exception as ex:
+            return "violation", f"{lab}: doWF raised {type(ex).__name__}: {ex}", calls
+        bad = judge_result(res, n + 1, w, wmu)
+        if bad or not np.array_equal(arr, before):
+            return "violation", f"{lab}: " + (bad[0] if bad else "doWF modified its input array"), calls
     # 6. replication law (ReplicationLaw): g repeated m times with total power m P -> the allocation repeated and
     #    the same level; tiled (g1 g2 .. g1 g2 ..) and blocked (g1 g1 .. g2 g2 ..), up to length 67 n (> 16
     #    elements: other sort path inside argsort; many equal gains; long runs of the drop loop)
@@ -307,7 +332,12 @@ def run_cases(cases):
     """all variants of every case, then (action Reuse of the specification) the call history of a caller that keeps
     ONE gains array per length and overwrites it in place with the next case before calling doWF again; every
     call must return the exact values of the case whose numbers are in the buffer at that moment"""
-    res = [run_case(c) for c in cases]
+    res = []
+    for c in cases:
+        try:
+            res.append(run_case(c))
+        except Exception as ex:      # comparisons are total: whatever doWF returned, the outcome is a verdict
+            res.append(("violation", f"what doWF returned could not be compared ({type(ex).__name__}: {ex})", 1))
     bufs = {}
     last = {}
     for i, c in enumerate(cases):
@@ -327,7 +357,10 @@ def run_cases(cases):
             except Exception as ex:
                 bad = f"doWF raised {type(ex).__name__}: {ex}"
                 break
-            j = judge_result(r, n, w, wmu, out_scale=k)
+            try:
+                j = judge_result(r, n, w, wmu, out_scale=k)
+            except Exception as ex:
+                j = (f"what doWF returned could not be compared ({type(ex).__name__}: {ex})", False)
             if j or not np.array_equal(buf, gf):
                 bad = (j[0] if j else "doWF modified its input array") + label
                 break
@@ -373,11 +406,13 @@ def model_devs(ctx, ex):
     jobs = [{"dev": d, "model": dict(SMALL, dev=[d], emit=False, invariants=[DEV_REFUTED_BY[d]])} for d in DEVS]
     # the absolute gain floor (1/4) lies below every gain of SMALL: EVERY other invariant holds on the domain,
     # only the scaling law (k = 1/8 moves the gains under the floor) refutes it
+    # "level too small -> equal split": invisible on the domain (levels >= 1/160), refuted by the live-channel law only
+    next(j for j in jobs if j["dev"] == "TinyLevelUniform")["model"].update(invariants=INVARIANTS)
     next(j for j in jobs if j["dev"] == "AbsGainFloor")["model"].update(invariants=INVARIANTS, Scales={(1, 8)},
                                                                         GainFloor=(1, 4))
     tie = {"model": dict(gains=G_STD, first=G_STD, lens=[1, 2, 3], powers=[(1, 1)], noises=[(1, 1)],
                          energies=[(1, 1), (2, 1)], DropOnTie=True)}
-    cov = {"model": dict(SMALL, emit=False, DeadGains={(1, 64), (1, 4096)}, DeadCount=2, DeadMaxLen=4), "coverage": True}       # intended instance with per-action coverage
+    cov = {"model": dict(SMALL, emit=False, DeadGains={(1, 64), (1, 4096)}, DeadCount=2, DeadMaxLen=4, LiveGains={(64, 1), (4096, 1)}, LiveMaxLen=4), "coverage": True}       # intended instance with per-action coverage
     res = list(ex.map(run_model, jobs + [tie, cov]))
     ctx.account(res.pop(), MODULE, "intended instance, small domain, coverage")
     for j, r in zip(jobs, res[:-1]):
